@@ -594,30 +594,102 @@ def _call_ordering(ctx, rep):
         rep.holds('R6', cons, 'on all %d in-place and %d out-of-place paths:'
                   ' domain test/cast -> range test on out -> dispatch -> '
                   'return-identity test / range cast' % (n_ip, n_oop))
-    # R7 default bridges
+    # R7 default bridges, by value capture: what is assigned into `out` is
+    # the out-of-place result *converted to a range element* (an out-of-place
+    # `_call` may return a raw array), what is returned by the out-of-place
+    # bridge is the range element that the in-place `_call` received
+    from ..symex import Interp, Hooks, Rec, Builtin, Func, PyRaise
+    from ..srcmodel import Model as _Model
+
+    class BH(Hooks):
+        def on_getattr(self, interp, obj, name):
+            if isinstance(obj, Rec) and name in obj.attrs:
+                return obj.attrs[name]
+            return NotImplemented
+    model = _Model(ctx)
     ip = ctx.func(OPFILE, '_default_call_in_place')
     oop = ctx.func(OPFILE, '_default_call_out_of_place')
-    s_ip = ast.unparse(ip)
-    ok = any(isinstance(n, ast.Call) and isinstance(n.func, ast.Attribute)
-             and n.func.attr == 'assign' and ast.unparse(n.func.value) ==
-             'out' for n in ast.walk(ip))
-    if ok:
-        rep.holds('R7', '_default_call_in_place', 'assigns the out-of-place '
-                  'result into out')
-    else:
-        rep.violation('R7', '_default_call_in_place', 'does not assign into '
-                      'out', OPFILE, ip.lineno)
-    alloc = any(isinstance(n, ast.Call) and ast.unparse(n.func) ==
-                'op.range.element' for n in ast.walk(oop))
-    rets = return_exprs(oop)
-    retname = rets[0].value.id if rets and isinstance(rets[0].value,
-                                                      ast.Name) else None
-    if alloc and retname:
-        rep.holds('R7', '_default_call_out_of_place', 'allocates from '
-                  'op.range and returns it')
-    else:
-        rep.violation('R7', '_default_call_out_of_place', 'does not allocate '
-                      'from op.range and return it', OPFILE, oop.lineno)
+    if ip is None or oop is None:
+        raise AnalysisError('anchor vanished: default call bridges')
+    # ---- in place
+    try:
+        seen = {}
+        raw = Rec('raw-result')
+        rng = Rec('range', element=Builtin('element', lambda v=None: Rec(
+            'range-element', of=v)))
+        xin = Rec('x')
+
+        def oop_call(x, **kw):
+            seen['oop_x'] = x
+            seen['oop_kw'] = kw
+            return raw
+        op = Rec('op', range=rng, _call_out_of_place=Builtin('oop',
+                                                             oop_call))
+        out = Rec('out', assign=Builtin('assign', lambda v: seen.__setitem__(
+            'assigned', v)))
+        I = Interp(model, {}, BH())
+        I.call_func(Func(ip, I.env_of(OPFILE), None), [op, xin, out],
+                    {'opt': 7})
+        a = seen.get('assigned')
+        probs = []
+        if seen.get('oop_x') is not xin:
+            probs.append('the out-of-place call does not receive x')
+        if seen.get('oop_kw') != {'opt': 7}:
+            probs.append('keyword arguments are not forwarded')
+        if a is None:
+            probs.append('nothing is assigned into out')
+        elif not (isinstance(a, Rec) and a.kind == 'range-element' and
+                  a.attrs['of'] is raw):
+            probs.append('the value assigned into out is %r, not the '
+                         'out-of-place result converted by range.element '
+                         '(a raw array result cannot be assigned)' % (a,))
+        if probs:
+            rep.violation('R7', '_default_call_in_place', '; '.join(probs),
+                          OPFILE, ip.lineno)
+        else:
+            rep.holds('R7', '_default_call_in_place', 'assigns range.element('
+                      'out-of-place result) into out')
+    except (Undecided, PyRaise) as e:
+        rep.undecided('R7', '_default_call_in_place', str(e), OPFILE,
+                      ip.lineno)
+    # ---- out of place
+    try:
+        seen = {}
+        made = []
+
+        def element(v=None):
+            r = Rec('range-element', of=v)
+            made.append(r)
+            return r
+        rng = Rec('range', element=Builtin('element', element))
+        xin = Rec('x')
+
+        def ip_call(x, out=None, **kw):
+            seen['ip'] = (x, out, kw)
+            return None
+        op = Rec('op', range=rng, _call_in_place=Builtin('ip', ip_call))
+        I = Interp(model, {}, BH())
+        r = I.call_func(Func(oop, I.env_of(OPFILE), None), [op, xin],
+                        {'opt': 7})
+        probs = []
+        if len(made) != 1 or made[0].attrs['of'] is not None:
+            probs.append('does not allocate one fresh range element')
+        elif 'ip' not in seen or seen['ip'][0] is not xin or \
+                seen['ip'][1] is not made[0] or seen['ip'][2] != {'opt': 7}:
+            probs.append('the in-place call does not receive (x, the '
+                         'allocated element, kwargs)')
+        elif r is not made[0]:
+            probs.append('returns %r instead of the element that was '
+                         'written' % (r,))
+        if probs:
+            rep.violation('R7', '_default_call_out_of_place',
+                          '; '.join(probs), OPFILE, oop.lineno)
+        else:
+            rep.holds('R7', '_default_call_out_of_place', 'allocates from '
+                      'the range, fills it in place, returns it')
+    except (Undecided, PyRaise) as e:
+        rep.undecided('R7', '_default_call_out_of_place', str(e), OPFILE,
+                      oop.lineno)
 
 
 # --------------------------------------------------------------------------
